@@ -94,6 +94,17 @@ func Profile(prop string, rng *prng.Rand, idx uint64) *GenCfg {
 		c.PImport = pickF(rng, 0.05, 0.15, 0.3)
 		c.PZeroRecv = pickF(rng, 0, 0.1)
 	case "C09":
+		if idx%4 == 3 {
+			// point world: the limb bound must also hold for the coordinates that
+			// point operations leave behind (they are Elements too)
+			c.Steps = 15 + rng.Intn(30)
+			swarm(rng, c.W, pointOps, 1, 6, 0.2)
+			swarm(rng, c.W, scalarOps, 1, 2, 0.4)
+			swarm(rng, c.W, elemOps, 1, 4, 0.2)
+			c.PImport = pickF(rng, 0.1, 0.3)
+			c.PZeroRecv = 0.1
+			break
+		}
 		c.NP, c.NS = 0, 0
 		c.NE = 8 + rng.Intn(9)
 		c.Steps = 30 + rng.Intn(60)
